@@ -206,13 +206,41 @@ def read_m3(text):
         return None, S.SmtError('unsupported', 'recursion')
 
 
-def read_pysmt(text):
+# scripts read by the same parser object *before* the script under test
+# (names disjoint from the generator's): get_script() must start afresh
+PRELUDES = {
+    'real-logic': '(set-logic QF_LRA)(declare-fun zz_r () Real)'
+                  '(assert (> zz_r 5))(check-sat)',
+    'int-logic': '(set-logic QF_LIA)(declare-fun zz_i () Int)'
+                 '(define-fun zz_f ((zz_a Int)) Int (+ zz_a 1))(push 1)'
+                 '(assert (let ((zz_l 3)) (> (zz_f zz_i) zz_l)))',
+    'bv-logic': '(set-logic QF_BV)(declare-fun zz_b () (_ BitVec 4))'
+                '(assert (= zz_b #xf))(define-sort zz_S () (_ BitVec 4))',
+    'fails-in-let': '(declare-fun zz_p () Bool)'
+                    '(assert (let ((zz_x 5) (zz_y zz_p)) (and zz_y zz_x)))',
+    'fails-in-quantifier': '(declare-fun zz_p () Bool)(assert (forall '
+                           '((zz_q Int) (zz_w Bool)) (and zz_w zz_q)))',
+    'fails-in-define': '(define-fun zz_g ((zz_a Int) (zz_c Bool)) Int '
+                       '(+ zz_a zz_c))',
+    'unbalanced': '(declare-fun zz_p () Bool)(assert (and zz_p',
+}
+
+
+def read_pysmt(text, prelude=None):
     from pysmt.smtlib.parser import SmtLibParser
     env = common.fresh_env()
+    parser = SmtLibParser(env)
+    if prelude is not None:
+        try:
+            with warnings.catch_warnings():
+                warnings.simplefilter('ignore')
+                parser.get_script(StringIO(PRELUDES[prelude]))
+        except Exception:
+            pass
     try:
         with warnings.catch_warnings():
             warnings.simplefilter('ignore')
-            script = SmtLibParser(env).get_script(StringIO(text))
+            script = parser.get_script(StringIO(text))
         return script, None
     except RecursionError as e:
         return None, e
@@ -247,6 +275,7 @@ class Checker(object):
         self.shrinks_left = 30
         self.baseline, self.corner_accepted, self.unhandled_features = \
             load_baseline()
+        self.prelude = None
         self.cache = {}
 
     # -- value comparison of one term ---------------------------------------
@@ -348,7 +377,7 @@ class Checker(object):
         if expect is not None:
             if merr is None or merr.kind not in expect:
                 return 'outside', 'variant is not malformed as intended'
-            script, perr = read_pysmt(text)
+            script, perr = read_pysmt(text, self.prelude)
             if perr is None:
                 return 'accepted-malformed', 'pySMT accepts text that is ' \
                     'not SMT-LIB (%s):\n%s' % (merr, text[:300])
@@ -358,7 +387,7 @@ class Checker(object):
             if merr.kind == 'unsupported':
                 return 'outside', 'reader: %s' % merr
             return 'invalid', str(merr)
-        script, perr = read_pysmt(text)
+        script, perr = read_pysmt(text, self.prelude)
         if perr is not None:
             return 'rejected', '%s: %s' % (common.exc_name(perr),
                                            str(perr)[:200])
@@ -370,7 +399,16 @@ class Checker(object):
 
     # -- check & classify -----------------------------------------------------
     def check(self, tree, j, feats=(), style=None, expect=None, cls=None,
-              wide=False):
+              wide=False, prelude=None):
+        self.prelude = prelude
+        try:
+            self.check_(tree, j, feats, style, expect, cls, wide)
+            if prelude is not None:
+                self.rep.count('parser_reuse_cases')
+        finally:
+            self.prelude = None
+
+    def check_(self, tree, j, feats, style, expect, cls, wide):
         rep = self.rep
         text = None
         if style:
@@ -431,6 +469,21 @@ class Checker(object):
         k3, d3 = self.judge(m)
         if k3 != kind:
             m, d3 = tree, detail
+        if self.prelude is not None:
+            pre_, self.prelude = self.prelude, None
+            try:
+                alone = self.judge(m)[0]
+            finally:
+                self.prelude = pre_
+            if alone != kind:
+                key = '%s/%s/parser-reuse:%s' % (PROP, kind, pre_)
+                self.cache[pre] = key
+                rep.violation(key, 'only when the same parser object has '
+                              'read the script %r before: %s\nminimal '
+                              'script:\n%s' % (PRELUDES[pre_], d3,
+                                               T.render(m)),
+                              {'tree': tree_json(m), 'prelude': pre_})
+                return
         if kind == 'rejected':
             rep.count('rejected_scripts')
             sig = signature(m) - BOILER
@@ -909,8 +962,11 @@ def run(rep):
             # construct the tokenizer does not handle: wide mode only)
             style = {'space': True, 'quote': True, 'comment': k % 2 == 0 and
                      (wide or 'attribute-sexpr' not in g.feats)}
+        prelude = None
+        if k % 5 == 3:
+            prelude = sorted(PRELUDES)[(k // 5) % len(PRELUDES)]
         ck.check(tree, j, feats=sorted(g.feats) + ['theme_' + g.theme],
-                 style=style, wide=wide)
+                 style=style, wide=wide, prelude=prelude)
         j += 1
         if k % 4 == 0:
             for cls, expect, mt in malformed_variants(rng, tree):
@@ -957,6 +1013,7 @@ def any_none(t):
 def replay(case, rep):
     ck = Checker(rep)
     c = case['case'] or {}
+    ck.prelude = c.get('prelude')
     if 'tree' in c:
         tree = tree_from_json(c['tree'])
         exp = set(c['expect']) if c.get('expect') else None
